@@ -17,6 +17,7 @@ package limited_rationality
 //@   fnparam generator ensures 0.0 <= result && result < 1.0
 //@   ensures [fresh_rearrangement] fresh(result) && fresh(*result) && len(*result) == len(*alternatives)
 //@   ensures [members] forall k int :: 0 <= k && k < len(*result) ==> exists j int :: 0 <= j && j < len(*alternatives) && (*result)[k] == (*alternatives)[j]
+//@   ensures [none_twice] model.distinctAltIds(*alternatives) ==> model.distinctAltIds(*result)
 //@   ensures [fixed_order] !isRandomOrder ==> forall k int :: 0 <= k && k < len(*alternatives) ==> (*result)[k] == (*alternatives)[k]
 //@   ensures [input_untouched] unchanged(*alternatives)
 
@@ -28,6 +29,8 @@ package limited_rationality
 //@             && (exists j int :: 0 <= j && j < len(dm.ConsideredAlternatives) + len(dm.NotConsideredAlternatives) && result0 == model.altAt(dm.ConsideredAlternatives, dm.NotConsideredAlternatives, j))
 //@   ensures [rest_are_considered] forall k int :: 0 <= k && k < len(result1) ==> exists j int :: 0 <= j && j < len(dm.ConsideredAlternatives) && result1[k] == dm.ConsideredAlternatives[j]
 //@   ensures [rest_fresh] len(result1) == 0 || fresh(result1)
+//@   ensures [nobody_examined_twice] model.distinctAltIds(dm.ConsideredAlternatives) ==> model.distinctAltIds(result1) && forall j int :: 0 <= j && j < len(result1) ==> result1[j].Id != result0.Id
+//@   ensures [everybody_examined] len(currentChoiceOf(params)) == 0 ==> 1 + len(result1) == len(dm.ConsideredAlternatives)
 
 //@ func PrepareSequentialRanking
 //@   property C01 C12 C13 C09 C11
